@@ -30,6 +30,12 @@ import numpy as np
 import common
 
 N_DEFAULT = 4
+# utterance ids in map order; later ids are substrings of earlier ones on purpose (ids are matched whole, not as text)
+NAMES = ["zz_u1", "u1y", "u1", "1", "q5", "5"]
+
+
+def name(k):
+    return NAMES[k - 1]
 
 
 def setup_corpus(root, n, rng):
@@ -39,7 +45,7 @@ def setup_corpus(root, n, rng):
     for k in range(1, n + 1):
         p = os.path.join(root, "raw", "s%d.npy" % k)
         np.save(p, (nprng.randn(300 + 37 * k) * 100).astype(np.float32))
-        lines.append("u%d %s" % (k, p))
+        lines.append("%s %s" % (name(k), p))
     with open(os.path.join(root, "map"), "w") as f:
         f.write("\n".join(lines) + "\n")
     with open(os.path.join(root, "pre.json"), "w") as f:
@@ -108,7 +114,7 @@ def observe(outdir, n, ref):
     files = []
     import torch
     for k in range(1, n + 1):
-        p = os.path.join(outdir, "u%d.pt" % k)
+        p = os.path.join(outdir, name(k) + ".pt")
         if not os.path.exists(p):
             files.append(-2)
             continue
@@ -134,7 +140,7 @@ def main_events(trace, pid):
 
 
 def uid(u):
-    return int(u[1:])
+    return NAMES.index(u) + 1
 
 
 def experiment(run, root, n, ref, schedule, workers, tid):
@@ -153,7 +159,7 @@ def experiment(run, root, n, ref, schedule, workers, tid):
         started = [e for e in evs if e["event"] == "start"]
         if not started:
             raise common.MachineryError("no start event from the hooks (guard not honoured?)")
-        man_at_start = set(["u%d" % k for k in range(1, n + 1)]) - set(started[0]["todo"])
+        man_at_start = set([name(k) for k in range(1, n + 1)]) - set(started[0]["todo"])
         saved_this_run = []
         for e in evs:
             if e["event"] == "start":
@@ -193,10 +199,10 @@ def experiment(run, root, n, ref, schedule, workers, tid):
         if crash is None:
             bad = [k for k in range(1, n + 1) if files[k - 1] != k - 1]
             if bad:
-                run.violation({"kind": "resumed_directory_differs_from_uninterrupted_run", "utterances": ["u%d" % k for k in bad],
+                run.violation({"kind": "resumed_directory_differs_from_uninterrupted_run", "utterances": [name(k) for k in bad],
                                "files": files, "schedule": schedule, "workers": workers})
                 ok = False
-            if sorted(man) != ["u%d" % k for k in range(1, n + 1)]:
+            if sorted(man) != sorted(name(k) for k in range(1, n + 1)):
                 run.violation({"kind": "final_manifest_incomplete", "manifest": man, "schedule": schedule, "workers": workers})
     shutil.rmtree(outdir, ignore_errors=True)
     if os.path.exists(outdir + ".manifest"):
@@ -207,11 +213,11 @@ def experiment(run, root, n, ref, schedule, workers, tid):
 def run(tier, seed):
     run = common.Run("C10", tier, seed)
     rng = random.Random(seed)
-    for cfg, name in (("FeatDir_%s.cfg" % tier, "FeatDir"), ("FeatDir_w0.cfg", "FeatDir(workers=0)")):
+    for cfg, modname in (("FeatDir_%s.cfg" % tier, "FeatDir"), ("FeatDir_w0.cfg", "FeatDir(workers=0)")):
         r = common.tlc("FeatDir", cfg, timeout=900, dump_actions=(cfg == "FeatDir_w0.cfg"))
         if r.violated:
-            run.violation({"kind": "model_" + r.violated, "module": name, "detail": r.errtext[-2500:]})
-        run.add_tlc(name, r, need_actions=("SaveBegin", "SaveWrite", "SaveEnd", "ManifestPrint", "HardKill", "SoftInt", "Restart", "Finish")
+            run.violation({"kind": "model_" + r.violated, "module": modname, "detail": r.errtext[-2500:]})
+        run.add_tlc(modname, r, need_actions=("SaveBegin", "SaveWrite", "SaveEnd", "ManifestPrint", "HardKill", "SoftInt", "Restart", "Finish")
                     if cfg == "FeatDir_w0.cfg" else ())
     for cfg, want in (("FeatDir_canary_seed.cfg", "C10_ResumeEqualsUninterrupted"), ("FeatDir_canary_flush.cfg", "C10_ManifestLagsByAtMostOne")):
         r = common.tlc("FeatDir", cfg, workers=4, timeout=300)
@@ -229,7 +235,7 @@ def run(tier, seed):
         pid, st = run_tool(root, refdir, 0, manifest=False)
         if not (os.WIFEXITED(st) and os.WEXITSTATUS(st) == 0):
             raise common.MachineryError("reference run failed: status %s" % st)
-        ref = {k: load_tensor(os.path.join(refdir, "u%d.pt" % k)) for k in range(1, n + 1)}
+        ref = {k: load_tensor(os.path.join(refdir, name(k) + ".pt")) for k in range(1, n + 1)}
         if any(v is None for v in ref.values()):
             raise common.MachineryError("reference run left unreadable files")
         for workers in (1, 2):
@@ -253,7 +259,7 @@ def run(tier, seed):
                 np.random.seed(1000 + 17 * rep + sd)
                 d = os.path.join(root, "seed%d_rep%d" % (sd, rep))
                 run_tool(root, d, 0, seed=sd, manifest=False)
-                outs.append({k: load_tensor(os.path.join(d, "u%d.pt" % k)) for k in range(1, n + 1)})
+                outs.append({k: load_tensor(os.path.join(d, name(k) + ".pt")) for k in range(1, n + 1)})
             run.evaluations += 1
             import torch as _t
             if any(outs[0][k] is None or outs[1][k] is None or not _t.equal(outs[0][k], outs[1][k]) for k in outs[0]):
